@@ -1,5 +1,6 @@
 import Swat4.Lemmas.LockFencing
 import Swat4.Gen.Facts
+import Swat4.Lemmas.StoreSpecRefine
 /-!
 # C09 — Concurrent registry writers never lose an update, readers never fail
 
@@ -275,5 +276,233 @@ theorem facts_ok : Facts.lockMaxAttempts = 5 ∧ 0 < Facts.lockLeaseMs ∧
     Facts.serversKey_lockKeyFmt = "servers:lock:%s" := by decide
 
 theorem start_attempts (op : WOp) (tok : Nat) : (Writer.start op tok).attemptsLeft + 1 = Facts.lockMaxAttempts := rfl
+
+end Swat4.C09
+
+/-! # Additions: the versioned-map specification, listings, and the source facts the model is built on -/
+namespace Swat4.C09
+open Swat4 Std
+
+/-! ## the interleaved system refines the versioned map of C11 (`Spec/Registry.lean`)
+
+`C09_linearizable` is stated with the model function `decideOp`.  The two theorems below restate it against the
+*specification* `AbsState.add / update / remove` (wrapped as `specWrite`, `Lemmas/StoreRefine.lean`) through C11's
+abstraction relation `Rel`: `Sys.committedOps s` is the list of the operations behind the log entries of `s`, in
+commit order, each with the clock reading its batch was stamped with; `specFold a0 ops` applies them one after
+another to the specification state `a0`. -/
+
+/-- **Refinement of the versioned map** (clause "the outcome equals applying each committed operation atomically at
+its commit instant to the then-current record").  From any well-formed initial system whose store stands for the
+specification state `a0`, after any schedule (any interleaving, lease expiries at any point, clock ticks) the store
+stands for `a0` with the committed operations applied atomically one after another in commit order — by the
+*specification's* `add / update / remove`, resolver and version gate included.  Calls that did not commit do not
+occur in the fold: they changed nothing. -/
+theorem C09_refines_spec {s0 : Sys} (h : Init s0) {a0 : AbsState} (hrel : Rel s0.store a0) (es : List Ev) :
+    ∃ ops : List (Int × WOp), ops = (s0.run es).committedOps ∧
+      Rel (s0.run es).store (ops.foldl (fun a p => (specWrite a p.1 p.2).1) a0) :=
+  ⟨_, rfl, loginv_refines_spec (C09_linearizable h es) hrel⟩
+
+/-- … and the results (same clause): the call behind the `n`-th commit is the `n`-th committed operation and returns
+exactly what the specification returns for it on the state the first `n` committed operations produce. -/
+theorem C09_committed_result_spec {s0 : Sys} (h : Init s0) {a0 : AbsState} (hrel : Rel s0.store a0) (es : List Ev)
+    (n : Nat) (c : Commit) (hn : (s0.run es).log[n]? = some c) :
+    ∃ (w : Writer) (r : WResult), (s0.run es).clients[c.client]? = some (.writer w) ∧ w.pc.fin? = some r ∧
+      (s0.run es).committedOps[n]? = some (c.batch.now, w.op) ∧
+      r = (specWrite (specFold a0 ((s0.run es).committedOps.take n)) c.batch.now w.op).2 :=
+  loginv_result_spec (C09_linearizable h es) hrel n c hn
+
+/-- every log entry contributes one committed operation -/
+theorem C09_committedOps_length {s0 : Sys} (h : Init s0) (es : List Ev) :
+    (s0.run es).committedOps.length = (s0.run es).log.length := by
+  have hl := C09_linearizable h es
+  unfold Sys.committedOps
+  generalize hL : (s0.run es).log = L
+  have hall : ∀ c ∈ L, ∃ p, (s0.run es).opOf c = some p := by
+    intro c hc
+    rw [← hL] at hc
+    obtain ⟨m, hm⟩ := List.getElem?_of_mem hc
+    obtain ⟨w, _, _, hcl, _⟩ := hl.entries m c hm
+    exact ⟨(c.batch.now, w.op), by simp only [Sys.opOf, hcl]⟩
+  clear hL
+  induction L with
+  | nil => rfl
+  | cons x xs ih =>
+    obtain ⟨p, hp⟩ := hall x List.mem_cons_self
+    simp only [List.filterMap_cons, hp, List.length_cons]
+    rw [ih (fun c hc => hall c (List.mem_cons_of_mem _ hc))]
+
+/-- **A listing returns committed versions** (clause "returns, for every server it reports, a committed version of
+that server"; joins `C09_listing` with `C09_rows_change_only_by_commit` / `C09_linearizable`).  Whenever — after any
+schedule from a well-formed initial system — a `Filter` call stands at its `HMGET`, its step yields the result
+`hmgetItems keys` (`C09_listing`), and every record in that result is either the record an *initial* row held under
+one of the requested keys, or exactly the record saved by the batch of a logged commit — i.e. of an accepted `EXEC`,
+whose call (by `C09_committed_result_spec`) returned that very record as its result. Nothing half-written, nothing
+from an aborted call can be seen. -/
+theorem C09_listing_committed {s0 : Sys} (h : Init s0) (es : List Ev) (i : Nat) (keys : List Nat)
+    (hc : (s0.run es).clients[i]? = some (.reader ⟨.hmget keys⟩)) :
+    ((s0.run es).step (.step i)).clients[i]? = some (.reader ⟨.done ((s0.run es).store.hmgetItems keys)⟩) ∧
+    ∀ r ∈ (s0.run es).store.hmgetItems keys,
+      (∃ k ∈ keys, s0.store.items[k]? = some r) ∨
+      (∃ c ∈ (s0.run es).log, ∃ now, c.batch = .save r now) :=
+  ⟨(C09_listing _ i keys hc).1, loginv_listing (C09_linearizable h es) keys⟩
+
+namespace Example
+
+/-- the hypotheses of `C09_refines_spec` are satisfiable: the example system starts on the empty keyspace, which
+stands for the empty registry -/
+example : Rel s0.store {} := Swat4.rel_empty
+
+/-- both calls run to completion one after the other, the clock advancing by 5 in between -/
+def both : List Ev :=
+  List.replicate 10 (.step 0) ++ [.tick 5] ++ List.replicate 10 (.step 1)
+
+set_option maxRecDepth 100000 in
+/-- … both commit, in this order, at clock readings 0 and 5 -/
+example : (s0.run both).committedOps.map (fun p => (p.1, p.2.kind)) = [(0, .add), (5, .update)] ∧
+    (s0.run both).log.length = 2 := ⟨rfl, rfl⟩
+
+set_option maxRecDepth 100000 in
+/-- the specification folded over them: `add` stores version 1, `update` (caller version 0 < 1, merging resolver keeps
+the stored record) stores version 2 at clock 5 — -/
+example : (specFold {} (s0.run both).committedOps).servers[svr.addr.key]? = some ⟨{ svr with version := 2 }, 5⟩ := by
+  decide
+
+set_option maxRecDepth 100000 in
+/-- — and that is what the store holds, as `C09_refines_spec` says -/
+example : (s0.run both).store.items[svr.addr.key]? = some { svr with version := 2 } ∧
+    (s0.run both).store.updated[svr.addr.key]? = some 5 := by decide
+
+/-- a writer and a `Filter` call (no criterion: everything) on the empty keyspace -/
+def s1 : Sys :=
+  { store := {}, clock := 0, nextTok := 1,
+    clients := [.writer (Writer.start ⟨.add, svr, keep⟩ 0), .reader ⟨.index {}⟩] }
+
+theorem clients1_cases {i : Nat} {w : Writer} (h : s1.clients[i]? = some (.writer w)) :
+    i = 0 ∧ w = Writer.start ⟨.add, svr, keep⟩ 0 := by
+  match i, h with
+  | 0, h => simp [s1] at h; exact ⟨rfl, h.symm⟩
+  | 1, h => simp [s1] at h
+  | i + 2, h => simp [s1] at h
+
+theorem init_s1 : Init s1 := by
+  refine ⟨?_, ?_, ?_, ?_, ?_, ?_, ?_, rfl⟩
+  · intro i w h; obtain ⟨_, rfl⟩ := clients1_cases h; decide
+  · intro i j wi wj hi hj _
+    obtain ⟨rfl, _⟩ := clients1_cases hi
+    obtain ⟨rfl, _⟩ := clients1_cases hj
+    rfl
+  · intro i w h; obtain ⟨_, rfl⟩ := clients1_cases h; exact ⟨rfl, rfl⟩
+  · intro i w h; obtain ⟨_, rfl⟩ := clients1_cases h; exact AddrPreserving.keyPreserving keep_ap
+  · intro k r h; simp [s1] at h
+  · intro k t h; simp [s1, RStore.lastOf] at h
+  · intro k c h; simp [s1] at h
+
+set_option maxRecDepth 100000 in
+/-- the hypotheses of `C09_listing_committed` are satisfiable: after the writer's commit (5 commands) the reader's
+index pipeline finds the key and the reader stands at its `HMGET` — -/
+example : (s1.run [.step 0, .step 0, .step 0, .step 0, .step 0, .step 1]).clients[1]? =
+    some (.reader ⟨.hmget [svr.addr.key]⟩) := rfl
+
+set_option maxRecDepth 100000 in
+/-- — the listing then returns the committed version-1 record, which is the record saved by the (only) log entry -/
+example :
+    let s := s1.run [.step 0, .step 0, .step 0, .step 0, .step 0, .step 1]
+    s.store.hmgetItems [svr.addr.key] = [{ svr with version := 1 }] ∧
+      s.log.map (·.batch) = [.save { svr with version := 1 } 0] := by decide
+
+end Example
+
+/-! ## the source facts the store model is built on (regenerated `Gen/Facts.lean`, section `storewrites`)
+
+`Model/Store.lean` / `Model/StoreMachine.lean` take for granted that (1) all row writes of a `save` / `remove` are
+ONE atomic step (`saveBatch`, `removeBatch`), (2) that step is fenced by the WATCH on the lock key (`wstep … .exec`
+compares `verOf`), (3) the lock key is the key of the address the rows are stored under (`k := c.op.svr.addr.key` for
+both), (4) the lock cell is created by one `SET NX` that always carries the lease as TTL, (5) each acquisition has a
+fresh token (`Writer.tok := fresh`), (6) the release's ownership check and `DEL` are separate commands (`relGet`,
+`relDel`).  None of this can be proved about the model — it *is* the model.  The harness' go/ast extractor
+(`harness/internal/facts/storewrites.go`) reports the corresponding syntactic shapes of `servers.go` and `redislock.go`
+on every run, and the theorems below pin them literally: any new write site, any write that escapes the
+`TxPipelined` closure, any `TxPipelined` on another receiver, any change of the lock-key expression, of the `SetNX`
+arguments or of where the token is drawn changes a list and breaks a theorem. -/
+
+/-- **(1), (6): every Redis write outside a `MULTI…EXEC` closure is a step of its own in the model.**  The only write
+call sites of `servers.go`, `instances.go`, `probes.go`, `redislock.go` that are not `pipe.X(…)` inside a
+`….TxPipelined(ctx, func(pipe){…})` closure are `Guard`'s `m.client.SetNX` (`WPC.setnx`) and `release`'s `tx.Del`
+(`WPC.relDel`, a separate command — see the wart in `Example`); and the writes of `save` / `remove` are all queued
+on the `pipe` of a `TxPipelined` whose receiver is the function's `tx *redis.Tx` parameter. -/
+theorem facts_writes_fenced :
+    Facts.storeWritesOutsideTx =
+      [("redislock", "Guard", "m.client", "SetNX"), ("redislock", "release", "tx *redis.Tx", "Del")] ∧
+    Facts.storeWritesInTx.filter (fun x => x.1 == "servers") =
+      [("servers", "remove", "tx *redis.Tx", "HDel"), ("servers", "remove", "tx *redis.Tx", "ZRem"),
+       ("servers", "remove", "tx *redis.Tx", "ZRem"), ("servers", "remove", "tx *redis.Tx", "SRem"),
+       ("servers", "save", "tx *redis.Tx", "HSet"), ("servers", "save", "tx *redis.Tx", "ZAdd"),
+       ("servers", "save", "tx *redis.Tx", "ZRem"), ("servers", "save", "tx *redis.Tx", "ZAdd"),
+       ("servers", "save", "tx *redis.Tx", "SAdd"), ("servers", "save", "tx *redis.Tx", "SRem")] ∧
+    Facts.storeReadCmds = ["Get", "HGet", "HLen", "HMGet", "SCard", "SInter", "SUnion", "ZCard", "ZRange", "ZRangeArgs"] := by
+  decide
+
+/-- **(2): `EXEC` is sent on the WATCHing connection.**  The complete list of `Watch` / `Pipelined` / `TxPipelined` /
+`Pipeline` / `TxPipeline` calls of `servers.go` and `redislock.go`: the two writers `save` and `remove` call
+`TxPipelined` on their `tx *redis.Tx` parameter (never on `r.client`, never a bare `Pipelined`); the only calls on
+`r.client` are the read-only index pipeline of `Filter` and the `SCARD`s of `CountByStatus`; `Watch` is called by
+`Guard` and `release` only. -/
+theorem facts_tx_calls :
+    Facts.storeTxCalls.filter (fun x => x.1 == "servers" || x.1 == "redislock") =
+      [("servers", "remove", "tx *redis.Tx", "TxPipelined"), ("servers", "filterServerKeys", "r.client", "Pipelined"),
+       ("servers", "CountByStatus", "r.client", "TxPipelined"), ("servers", "save", "tx *redis.Tx", "TxPipelined"),
+       ("redislock", "Guard", "m.client", "Watch"), ("redislock", "release", "m.client", "Watch")] := by
+  decide
+
+/-- … read off the list: every function of `servers.go` that writes (`facts_writes_fenced`) sends its transaction
+with `TxPipelined` on its `tx *redis.Tx` parameter -/
+theorem facts_writers_exec_on_tx :
+    ∀ x ∈ Facts.storeTxCalls, x.1 = "servers" → (x.2.1 = "save" ∨ x.2.1 = "remove") →
+      x.2.2 = ("tx *redis.Tx", "TxPipelined") := by
+  decide
+
+/-- **(2), continued: that `tx` is the one `Guard` WATCHes the lock key on.**  Every function literal that takes a
+`*redis.Tx` and whom it is passed to — `Add`/`Update`/`Remove` → `updateExclusive` → `r.locker.Guard(ctx, lockKey,
+lease, …)` → `m.client.Watch(ctx, …, key)` — and every call that hands a `*redis.Tx` on passes the `tx` parameter it
+received (`op(tx)`, `r.add(ctx, tx, …)`, `r.save(ctx, tx, …)`, …): the `tx` in `save` / `remove` is the connection on
+which `Guard` issued `WATCH key` with `key` = the lock key. -/
+theorem facts_tx_provenance :
+    Facts.storeTxLits =
+      [("servers", "Add", "r.updateExclusive", "ctx, svr"), ("servers", "Update", "r.updateExclusive", "ctx, svr"),
+       ("servers", "Remove", "r.updateExclusive", "ctx, svr"),
+       ("servers", "updateExclusive", "r.locker.Guard", "ctx, lockKey, r.lockOpts.LeaseDuration"),
+       ("redislock", "Guard", "m.client.Watch", "ctx, key"), ("redislock", "release", "m.client.Watch", "ctx, key")] ∧
+    Facts.storeTxArgs =
+      [("servers", "Add", "r.add", "tx *redis.Tx"), ("servers", "add", "r.save", "tx *redis.Tx"),
+       ("servers", "add", "r.save", "tx *redis.Tx"), ("servers", "Update", "r.update", "tx *redis.Tx"),
+       ("servers", "update", "r.save", "tx *redis.Tx"), ("servers", "Remove", "r.remove", "tx *redis.Tx"),
+       ("servers", "updateExclusive", "op", "tx *redis.Tx"), ("redislock", "Guard", "op", "tx *redis.Tx")] := by
+  decide
+
+/-- **(3): the lock key is the key of the address the rows are written under.**  `updateExclusive` is the only caller of
+`Guard`; the key it passes has the single definition `fmt.Sprintf(lockKeyFmt, svr.Addr.String())`, and
+`svr.Addr.String()` is also the expression `save` and `remove` use as hash field / index member. -/
+theorem facts_lock_key :
+    Facts.lockGuardCalls =
+      [("updateExclusive", "r.locker", "ctx context.Context, lockKey, r.lockOpts.LeaseDuration, func")] ∧
+    Facts.lockKeyDefs = [("updateExclusive", "lockKey", "fmt.Sprintf(lockKeyFmt, svr.Addr.String())")] ∧
+    Facts.lockKeyExpr = "svr.Addr.String()" ∧
+    Facts.storeItemFieldDefs = [("remove", "svrAddr", "svr.Addr.String()"), ("save", "svrAddr", "svr.Addr.String()")] ∧
+    (∀ d ∈ Facts.storeItemFieldDefs, d.2.2 = Facts.lockKeyExpr) := by
+  decide
+
+/-- **(4), (5): one `SET NX` with the lease as TTL; a fresh token per acquisition.**  The only `SetNX` of `redislock.go`
+is `m.client.SetNX(ctx, key, token, ttl)` in `Guard`, with `key` and `ttl` the second and third parameters of `Guard`
+(which `updateExclusive` fills with the lock key and `r.lockOpts.LeaseDuration` — `facts_lock_key`; the lease is
+positive — `facts_ok`); no other call in the file can set, change or remove an expiry (`Expire`, `PExpire`, `Persist`,
+`Set…`, …); the value is the local `token := uuid.NewString()` defined in `Guard`, and that is the only call into a
+`uuid` / `rand` package in the file (not in `NewManager`). -/
+theorem facts_lock_setnx :
+    Facts.lockSetNX = [("Guard", "m.client", "ctx context.Context, key string, token, ttl time.Duration")] ∧
+    Facts.lockGuardParams = ["ctx context.Context", "key string", "ttl time.Duration", "op func(tx *redis.Tx) error"] ∧
+    Facts.lockExpireCalls = [] ∧
+    Facts.lockTokenGen = [("Guard", "uuid.NewString()")] ∧
+    Facts.lockTokenDefs = [("Guard", "token", "uuid.NewString()")] := by
+  decide
 
 end Swat4.C09
